@@ -280,7 +280,14 @@ def apiStep (s : Option ApiSt) (toks : List String) : Option ApiSt × List Strin
     match st.cqs.find? (·.1 = cl) with
     | some (_, it :: rest) => (some { st with cqs := (cl, rest) :: st.cqs.filter (·.1 ≠ cl) }, [it])
     | _ => (s, ["cmsg empty"])
+  | ["hdr-len", ch, len], some st =>
+    -- the content header `sendContent` submits for a body of that length (default properties)
+    match ch.toNat?, len.toNat? with
+    | some ch, some len => (some st, ["ok", showSent ch (.send (.header ch 60 len [0, 0]))])
+    | _, _ => (s, ["bad-op"])
   | [kind, ch], some st =>
+    -- `drop-panic-chan`: dropped by unwinding - a drop like any other
+    let kind := if kind = "drop-panic-chan" then "drop-chan" else kind
     if kind = "close-chan" || kind = "drop-chan" then
       match ch.toNat? with
       | some ch =>
